@@ -178,6 +178,8 @@ Section Exec.
     | TTimeSignature args => Ok (exec_time_signature s args)
     | TMeasureShift v => Ok (s_set_time s (s_tempo s) (s_timesig_frac s) (s_timesig_deno s) v)
     | TTempo v => Ok (tempo_change s (value_range 10 v 300))
+    | TVAdd v => Ok (s_set_adds s v (s_q_add s))
+    | TQAdd v => Ok (s_set_adds s (s_v_add s) v)
     end.
 
   Definition step_tok (t : tok) (s : res song) : res song := do sg <- s; step_song t sg.
